@@ -21,11 +21,15 @@ class Planted:
         self.n += 1
         return ('Zq%dqZ' if sens else 'Kp%dpK') % self.n
 
+KEYWORDS = ['if', 'then', 'else', 'index', 'path', 'query', 'type', 'case', 'default', 'branches', 'input', 'as', 'in', 'from', 'pipeline', 'limit', 'sort', 'text', 'equals', 'value', 'score']
+
 def variant_string(lr, kind):
     """another member of the same lexical class (never '$'-prefixed; e-mail-shaped iff kind == 'email')"""
     if kind == 'email':
         n = lr.choice([1, 2, 5, 12, 30, 63, 64, 65, 100, 180, 230])
         return ''.join(lr.choice('abcxyzABZ0189._-+!#') for _ in range(n)) + 'q@' + lr.choice(['x.io', 'example.org', 'a-b.c.d.museum', 'h', 'Example.COM'])
+    if lr.random() < 0.08:   # strings that are operator / argument names of the tool's tables (as VALUES they are ordinary literals)
+        return lr.choice(KEYWORDS)
     if lr.random() < 0.12:   # strings shaped like what the tool itself emits (placeholder, pseudonym, ciphertext, constants)
         return lr.choice(['REDACTED', 'REDACTED_%016x' % lr.getrandbits(64), 'REDACTED_%016x.REDACTED_%016x' % (lr.getrandbits(64), lr.getrandbits(64)), 'X_%016x' % lr.getrandbits(64),
                           '255.255.255.255:65535', '1970-01-01T00:00:00.000Z', '000000000000000000000000', 'AAAAAAAAAAAAAAAAAAAAAAAAAAAAAA==', '00000000-0000-0000-0000-000000000000',
@@ -50,6 +54,7 @@ class G:
         self.vocab = vocab or {}
         self.maxdepth = depth
         self.collide = collide
+        self.odd_names = fields is None      # only with the default field pool (checks that plant their own identifiers keep them)
         self.stats = {}
 
     def hit(self, k):
@@ -186,6 +191,8 @@ class G:
         f = self.r.choice(self.fields)
         if self.r.random() < 0.15:
             f = f + '.' + self.r.choice(self.fields)
+        if self.odd_names and self.r.random() < 0.08:
+            f = self.r.choice(['R&D', '<id>', 'a>b', 'q&a<b>', 'ls\u2028ps\u2029', 'tab\tname', 'quo"te', 'back\\slash', 'nul\x00', 'caf\u00e9', 'a,b', 'sp ace', 'per%cent', 'semi;colon'])
         if self.collide and self.r.random() < 0.3:
             f = self.r.choice(self.vocab.get('argnames', ['index']))
         self.p.names.add(f)
@@ -202,6 +209,16 @@ class G:
         n = 'Nq%dqN' % self.p.n
         self.ns_names.append(n)
         return n
+
+    def nsarg(self):
+        """a namespace-typed stage argument: the string form or one of the document forms"""
+        k = self.r.choice(['str', 'str', 'dbcoll', 'coll', 'db', 'dbcollx'])
+        self.hit('nsarg_' + k)
+        if k == 'str': return self.nsname()
+        if k == 'dbcoll': return {'db': self.nsname(), 'coll': self.nsname()}
+        if k == 'coll': return {'coll': self.nsname()}
+        if k == 'db': return {'db': self.nsname()}
+        return {'coll': self.nsname(), 'db': self.nsname(), 'comment': 'x'}
 
     def fieldref(self):
         return '$' + self.field()
@@ -333,14 +350,14 @@ class G:
         if k == '$documents': return {'$documents': [{self.field(): self.literal(w, depth + 1)} for _ in range(self.r.randint(0, 2))]}
         if k == '$out': return {'$out': self.nsname()}
         if k == '$outobj': return {'$out': {'db': self.nsname(), 'coll': self.nsname()}}
-        if k == '$merge': return {'$merge': {'into': self.nsname(), 'on': self.field(), 'whenMatched': self.r.choice(['merge', 'replace', 'keepExisting']), 'whenNotMatched': 'insert'}}
+        if k == '$merge': return {'$merge': {'into': self.nsarg(), 'on': self.field(), 'whenMatched': self.r.choice(['merge', 'replace', 'keepExisting']), 'whenNotMatched': 'insert'}}
         if k == '$mergepipe': return {'$merge': {'into': {'db': self.nsname(), 'coll': self.nsname()}, 'let': {self.name(): self.expr(w, depth + 1)}, 'whenMatched': self.update_pipeline(w + '.whenMatched', depth + 1)}}
         if k == '$densify': return {'$densify': {'field': self.field(), 'range': {'step': RawNum('1'), 'unit': 'hour', 'bounds': [self.s_date(w), self.s_date(w)]}}}
         if k == '$fill': return {'$fill': {'sortBy': {self.field(): RawNum('1')}, 'output': {self.field(): {'value': self.expr(w, depth + 1)}}}}
-        if k == '$lookup': return {'$lookup': {'from': self.nsname(), 'localField': self.field(), 'foreignField': self.field(), 'as': self.name()}}
+        if k == '$lookup': return {'$lookup': {'from': self.nsarg(), 'localField': self.field(), 'foreignField': self.field(), 'as': self.name()}}
         if k == '$lookuppipe': return {'$lookup': {'from': self.nsname(), 'let': {self.name(): self.expr(w, depth + 1)}, 'pipeline': self.pipeline(w + '.pipeline', depth + 1), 'as': self.name()}}
-        if k == '$graphLookup': return {'$graphLookup': {'from': self.nsname(), 'startWith': self.expr(w, depth + 1), 'connectFromField': self.field(), 'connectToField': self.field(), 'as': self.name(), 'maxDepth': RawNum('3'), 'restrictSearchWithMatch': self.filter(w + '.restrict', depth + 1)}}
-        if k == '$unionWith': return {'$unionWith': {'coll': self.nsname(), 'pipeline': self.pipeline(w + '.pipeline', depth + 1)}}
+        if k == '$graphLookup': return {'$graphLookup': {'from': self.nsarg(), 'startWith': self.expr(w, depth + 1), 'connectFromField': self.field(), 'connectToField': self.field(), 'as': self.name(), 'maxDepth': RawNum('3'), 'restrictSearchWithMatch': self.filter(w + '.restrict', depth + 1)}}
+        if k == '$unionWith': return {'$unionWith': {'coll': self.nsarg(), 'pipeline': self.pipeline(w + '.pipeline', depth + 1)}}
         if k == '$unionWithstr': return {'$unionWith': self.nsname()}
         if k == '$lookupsearch': return {'$lookup': {'from': self.nsname(), 'pipeline': [self.search_stage(w + '.pipeline')] + self.pipeline(w + '.pipeline', depth + 2), 'as': self.name()}}
         if k == '$unionWithsearch': return {'$unionWith': {'coll': self.nsname(), 'pipeline': [self.search_stage(w + '.pipeline')] + self.pipeline(w + '.pipeline', depth + 2)}}
@@ -660,6 +677,49 @@ def collide_lines(vocab):
             out.append((l.encode(), {'kind': 'grammar_collide', 'sensitive': [(c, 'string', 'user field named ' + name) for c in mine], 'sens_numbers': [], 'ip': '10.0.0.1:5', 'stats': {}, 'names': [name], 'verbs': ['collide']}))
     return out
 
+def keyword_value_lines(vocab):
+    """systematic: every bare word of the tables (operator-argument names, keywords) as a string VALUE in the query-bearing places.
+    As a value it is an ordinary literal. The planted 'core' is the fragment key:value, which survives iff the value does."""
+    out = []
+    words = [k for k in vocab.get('all', []) if k and not k.startswith('$') and '"' not in k and '\\' not in k]
+    for i, w in enumerate(words):
+        wq = json.dumps(w)
+        frags = ['"zv1":%s' % wq, '"$eq":%s' % wq, '"$in":[%s' % wq, '"zv2":%s' % wq, '"zv3":%s' % wq, '"zv4":[%s' % wq]
+        cmd = ('{"aggregate":"c","pipeline":[{"$match":{"zv2":%s,"k":{"$or":[%s,"$flag"]}}},{"$lookup":{"from":"x","pipeline":[{"$match":{"zv3":%s}}],"as":"j"}},{"$project":{"zv4":[%s,"$a"]}}],"$db":"d"}' % (wq, wq, wq, wq)
+               if i % 2 else '{"find":"c","filter":{"zv1":%s,"a":{"$eq":%s},"b":{"$in":[%s,"other"]}},"$db":"d"}' % (wq, wq, wq))
+        l = '{"t":{"$date":"2020-01-01T00:00:00.000+00:00"},"s":"I","c":"COMMAND","id":51803,"ctx":"conn1","msg":"Slow query","attr":{"ns":"d.c","command":%s,"remote":"10.0.0.1:5"}}' % cmd
+        mine = [f for f in frags if f in cmd]
+        out.append((l.encode(), {'kind': 'keyword_value', 'sensitive': [(f, 'string', 'literal equal to the table key ' + w) for f in mine], 'sens_numbers': [], 'ip': '10.0.0.1:5', 'stats': {}, 'names': [], 'verbs': ['keyword']}))
+    return out
+
+def deep_lines():
+    """systematic: sub-documents / arrays / operators nested 50 .. 300 levels deep inside the query-bearing places, with planted literals at the bottom"""
+    out = []
+    n = 0
+    for d in (50, 98, 99, 100, 101, 102, 130, 300):
+        for shape in ('doc', 'and', 'arr', 'elem', 'mixed'):
+            n += 1
+            core, num = 'Dq%dqD' % n, str(8100000 + n)
+            bottom = '{"leaf":"%s","n":%s,"flag":true}' % (core, num)
+            if shape == 'doc': body = '{"a":' * d + bottom + '}' * d
+            elif shape == 'and': body = '{"$and":[' * d + bottom + ']}' * d
+            elif shape == 'arr': body = '{"a":' + '[' * d + bottom + ']' * d + '}'
+            elif shape == 'elem': body = '{"a":{"$elemMatch":' * d + bottom + '}}' * d
+            else: body = '{"a":[{"b":' * (d // 2) + bottom + '}]}' * (d // 2)
+            cmds = ['{"find":"c","filter":%s,"$db":"d"}' % body,
+                    '{"delete":"c","deletes":[{"q":%s,"limit":0}],"$db":"d"}' % body,
+                    '{"aggregate":"c","pipeline":[{"$match":%s}],"$db":"d"}' % body,
+                    '{"insert":"c","documents":[%s],"$db":"d"}' % body,
+                    '{"update":"c","updates":[{"q":{"k":1},"u":{"$set":%s}}],"$db":"d"}' % body]
+            for ci, cmd in enumerate(cmds):
+                if (n + ci) % 2 and d > 102: continue
+                key = 'originatingCommand' if ci == 1 and d % 2 == 0 else 'command'
+                extra = ',"command":{"getMore":7,"collection":"c","$db":"d"}' if key == 'originatingCommand' else ''
+                l = '{"t":{"$date":"2020-01-01T00:00:00.000+00:00"},"s":"I","c":"COMMAND","id":51803,"ctx":"conn1","msg":"Slow query","attr":{"ns":"d.c","%s":%s%s,"remote":"10.0.0.1:5"}}' % (key, cmd, extra)
+                out.append((l.encode(), {'kind': 'deep', 'sensitive': [(core, 'string', '%s nesting, depth %d' % (shape, d))], 'sens_numbers': [(num, 'depth %d' % d)], 'ip': '10.0.0.1:5',
+                                         'stats': {'deep_%d' % d: 1}, 'names': ['a', 'leaf'], 'verbs': ['deep']}))
+    return out
+
 def vocab_from_dump(dump):
     allk, argnames = [], []
     def walk(m, top):
@@ -679,7 +739,7 @@ def vocab_from_dump(dump):
 
 
 # ---------- plan summaries with awkward index-key names ----------
-PLAN_NAMES = ['a', 'IX', 'N', 'SCAN', 'c++', 'tags[', '(draft', 'rate**', 'x\\y', 'a.b', '$x', 'é', '', ' ', 'a b', 'ab', 'b', 'abc', 'f0', 'REDACTED', '_id', 'x{y', 'q?', '^a$', 'a|b', '[z]', 'name', 'age', 'uf_a']
+PLAN_NAMES = ['a,b', 'x,', ',y', 'a', 'IX', 'N', 'SCAN', 'c++', 'tags[', '(draft', 'rate**', 'x\\y', 'a.b', '$x', 'é', '', ' ', 'a b', 'ab', 'b', 'abc', 'f0', 'REDACTED', '_id', 'x{y', 'q?', '^a$', 'a|b', '[z]', 'name', 'age', 'uf_a']
 
 def plan_line(rng, ns='mydb.users'):
     k = rng.randint(1, 3)
@@ -687,7 +747,7 @@ def plan_line(rng, ns='mydb.users'):
     for _ in range(rng.randint(1, 2)):
         names = [rng.choice(PLAN_NAMES) for _ in range(k)]
         clauses.append('IXSCAN { ' + ', '.join('%s: %s' % (n, rng.choice(['1', '-1'])) for n in names) + ' }')
-    ps = rng.choice([', '.join(clauses), 'COLLSCAN', 'IDHACK', 'IXSCAN {}', 'IXSCAN{' + rng.choice(PLAN_NAMES) + ':1}', 'SORT_MERGE IXSCAN { a: 1 } IXSCAN { b.c: 1 }'])
+    ps = rng.choice([', '.join(clauses), 'COLLSCAN', 'IDHACK', 'IXSCAN {}', 'IXSCAN { a: 1, }', 'IXSCAN { a }', 'IXSCAN { , }', 'IXSCAN { a: 1,, b: 1 }', 'IXSCAN { : 1 }', 'IXSCAN { a:1,b }', 'IXSCAN{' + rng.choice(PLAN_NAMES) + ':1}', 'SORT_MERGE IXSCAN { a: 1 } IXSCAN { b.c: 1 }'])
     flt = {rng.choice(PLAN_NAMES) or 'z': 'v%d' % rng.randint(0, 9) for _ in range(2)}
     entry = {'t': {'$date': '2020-01-01T00:00:00.000+00:00'}, 's': 'I', 'c': 'COMMAND', 'id': RawNum('51803'), 'ctx': 'conn1', 'msg': 'Slow query',
              'attr': {'type': 'command', 'ns': ns, 'command': {'find': ns.split('.', 1)[-1], 'filter': flt, '$db': ns.split('.')[0]}, 'planSummary': ps, 'durationMillis': RawNum('5')}}
